@@ -17,6 +17,13 @@ proto side (what a peer sends), per spec
   O2r the attributes parsed from the peer's bytes show every non-default value the peer set
 once per entity class
   O3a the typed entities' convenience properties read/write the attribute they are named after
+operation sequences on ONE entity object (every entity form x every modifiable field x old/new value)
+  O4  A: serialise, modify field f, serialise      B: parse an incoming node, modify f, serialise
+      B2: parse, serialise, modify f, serialise    C: serialise, replace message_attributes wholesale, serialise
+      D: serialise, forward() a copy, modify the copy: the copy carries the new value, the original the old one
+      After the last step the <proto> payload, decoded with the reference field table, must equal the reference
+      proto of the NEW spec by value (new value for f, every other set field unchanged).  f is modified through the
+      entity's property setter where one exists and through the attribute object.
 
 Exceptions escaping on valid inputs are violations; the field is blamed by toggling
 each field of the failing spec and re-running (the field whose toggle makes the exception vanish).
@@ -493,6 +500,248 @@ def run_accessors(kind, cls_e):
 
 
 # ---------------------------------------------------------------------------------------------
+# O4: operation sequences on one entity object
+# ---------------------------------------------------------------------------------------------
+TO2 = "4915100000009@s.whatsapp.net"
+
+
+def seq_forms():
+    """[(kind, form index, form name)] every entity form once (the gif/ptt aliases share the class of the first form)"""
+    out = []
+    for kind in KINDS:
+        for i, form in enumerate(entity_forms(kind)):
+            if "[" in form[0]:
+                continue
+            out.append((kind, i, form[0]))
+    return out
+
+
+def seq_base_specs(kind):
+    """two contents per kind: only the required fields, and every optional field set; both quote a text where possible"""
+    if kind == TEXT:
+        return [P.text_spec(0)]
+    c = CLASSES[kind]
+    ctx = std_ctx(("r", 0)) if c.ctx else None
+    return [P.make_spec(kind, [], ("r", 0), ctx=ctx), P.make_spec(kind, c.optional_names(), ("r", 1), ctx=ctx)]
+
+
+def seq_items():
+    """(kind, form index, base spec, field id, new index) - every modifiable field x every other alphabet value
+    (and 'unset' for optional fields; for the context info as a whole: another one / none)."""
+    for kind, fi, fname in seq_forms():
+        for base in seq_base_specs(kind):
+            for fid, f in P.field_ids(base):
+                old = P.field_index(base, fid)
+                if fid == "ctx":
+                    news = [P.full_ctx(("r", 2), quoted=P.text_spec(1)), P.make_ctx(["mentioned_jid"], ("u", 0))]
+                    if old is not None and not CLASSES[kind].dm:
+                        # MediaAttributes.context_info asserts a ContextInfoAttributes: removing one is outside its contract
+                        news.append(None)
+                else:
+                    news = [i for i in (0, 1, 2) if i != old] + ([None] if (f.optional and old is not None) else [])
+                oldv = P.field_value(base, fid) if fid != "ctx" else None
+                for new in news:
+                    if fid != "ctx":
+                        newv = P.field_value(P.with_field(base, fid, new), fid)
+                        if newv is not None and oldv is not None and P._same(newv, oldv):
+                            continue        # two alphabet indices of a 2-valued kind
+                    yield ("seq", (kind, fi, base, fid, new))
+        # C: whole-object replacement, between every ordered pair of three contents
+        bases = seq_base_specs(kind)
+        if kind == TEXT:
+            trio = [P.text_spec(0), P.text_spec(2), P.text_spec(1)]
+        else:
+            c = CLASSES[kind]
+            trio = [bases[0], bases[-1], P.make_spec(kind, c.optional_names()[::2], ("r", 2),
+                                                    ctx=P.make_ctx(["stanza_id"], ("u", 2)) if c.ctx else None)]
+        for a in range(3):
+            for b in range(3):
+                if a != b:
+                    yield ("seq", (kind, fi, trio[a], "*", trio[b]))
+
+
+def payload_tree(node):
+    m = e2e_pb2.Message()
+    m.ParseFromString(node.getChild("proto").getData())
+    return P.proto_tree(m)
+
+
+def setter_name(kind, cls_e, fid):
+    """name of the entity's property that writes fid, or None"""
+    if kind == TEXT:
+        return "conversation" if isinstance(getattr(cls_e, "conversation", None), property) else None
+    if fid == "ctx":
+        p = getattr(cls_e, "context_info", None)
+        return "context_info" if isinstance(p, property) and p.fset else None
+    if fid.startswith("ctx.") or fid.startswith("key."):
+        return None
+    path = ("dm", fid[3:]) if fid.startswith("dm.") else (fid,)
+    for name, tp in prop_targets(kind).items():
+        p = getattr(cls_e, name, None)
+        if tp == path and isinstance(p, property) and p.fset is not None:
+            return name
+    return None
+
+
+class ModifyRaised(Exception):
+    def __init__(self, orig):
+        Exception.__init__(self, repr(orig))
+        self.orig = orig
+
+
+def modify(ent, kind, fid, new_spec, way, cls_e):
+    v = P.field_value(new_spec, fid)
+    try:
+        if way == "property":
+            setattr(ent, setter_name(kind, cls_e, fid), v)
+        else:
+            obj, name = P.locate(ent.message_attributes, kind, fid)
+            setattr(obj, name, v)
+    except Exception as e:
+        raise ModifyRaised(e)
+
+
+def setter_owner(kind, fid):
+    """(class, field) whose setter is exercised when fid is modified through the attribute objects"""
+    if fid == "ctx":
+        return ("downloadablemedia" if CLASSES[kind].dm else kind), "context_info"
+    return P.owner_of(kind, fid)
+
+
+def run_seq_item(item):
+    """-> (violations, n real serialisations/parses)"""
+    kind, fi, base, fid, new = item
+    form, cls_e, mtype, mediatype, ctor = entity_forms(kind)[fi]
+    case = {"side": "seq", "item": [kind, fi, base, fid, new]}
+    size = P.spec_size(base)
+    vs = []
+    execs = [0]
+    old_ref = P.proto_tree(P.build_proto(base))
+
+    def ser(e):
+        execs[0] += 1
+        return e.toProtocolTreeNode()
+
+    def fresh(mname="out", spec=base):
+        return make_entity(ctor, P.build_attrs(spec), spec, METAS[mname])
+
+    def parsed():
+        execs[0] += 1
+        return cls_e.fromProtocolTreeNode(ser(fresh("in")))
+
+    def judge(seq, way, node, want_ref, other_ref, role="payload"):
+        """'' when the node's payload equals want_ref by value, else what it is instead"""
+        got = payload_tree(node)
+        d = P.proto_diff(want_ref, got)
+        if not d:
+            return None
+        stale = not P.proto_diff(other_ref, got)
+        return ("stale" if stale else "wrong", d)
+
+    def report(seq, way, verdict, what_kind):
+        word, d = verdict
+        path, cls, field, what, ev, ov = d[0]
+        ocls, ofield = P.owner_of(kind, fid) if fid != "*" else ("entity", "message_attributes")
+        text = "%s, sequence %s (%s), field %s modified through the %s: the <proto> payload %s (%s: expected %s, payload has %s)" % (
+            form, seq, SEQ_TEXT[seq], fid, "entity property %s" % setter_name(kind, cls_e, fid) if way == "property"
+            else ("message_attributes setter" if fid == "*" else "attribute object"),
+            {"stale": "still carries the OLD content", "wrong": "carries neither the new content nor the old one"}[word]
+            if what_kind == "new" else "of the ORIGINAL changed although only the copy was modified",
+            "/".join(path), short(ev), short(ov))
+        return (seq, way, word, what_kind, ocls, ofield, text, d[0])
+
+    if fid == "*":
+        # C: whole-object replacement
+        new_spec = new
+        new_ref = P.proto_tree(P.build_proto(new_spec))
+        problems = []
+        try:
+            e = fresh()
+            ser(e)
+            e.message_attributes = P.build_attrs(new_spec)
+            v = judge("C", "attrs", ser(e), new_ref, old_ref)
+            if v:
+                problems.append(report("C", "attrs", v, "new"))
+        except Exception as ex:
+            vs.append(vio("sequence", SEQ_GROUP["C"], "raises", "%s, sequence C: %s: %s (%s)" % (form, type(ex).__name__, ex, exc_site(ex)),
+                          case, repr(ex), size, 4))
+        for seq, way, word, wk, ocls, ofield, text, d0 in problems:
+            vs.append(vio("sequence", SEQ_GROUP[seq], "%s-payload" % word, text, case, {"diff": d0}, size, 4))
+        return vs, execs[0]
+
+    new_spec = P.with_field(base, fid, new)
+    new_ref = P.proto_tree(P.build_proto(new_spec))
+    ways = ["attrs"] + (["property"] if setter_name(kind, cls_e, fid) else [])
+    results = {}        # (seq, way) -> report tuple
+    for way in ways:
+        for seq in ("A", "B", "B2", "D"):
+            try:
+                if seq == "A":
+                    e = fresh()
+                    n1 = ser(e)
+                    modify(e, kind, fid, new_spec, way, cls_e)
+                    e.to = TO2
+                    n2 = ser(e)
+                    v = judge(seq, way, n2, new_ref, old_ref)
+                    if v:
+                        results[(seq, way)] = report(seq, way, v, "new")
+                    if n2["to"] != TO2 or n1["to"] != METAS["out"]["recipient"]:
+                        vs.append(vio("sequence", "A", "recipient", "%s: after entity.to = x the second node is addressed to %r, "
+                                      "the first to %r" % (form, n2["to"], n1["to"]), case, None, size, 4))
+                elif seq in ("B", "B2"):
+                    e = parsed()
+                    if seq == "B2":
+                        ser(e)
+                    modify(e, kind, fid, new_spec, way, cls_e)
+                    v = judge(seq, way, ser(e), new_ref, old_ref)
+                    if v:
+                        results[(seq, way)] = report(seq, way, v, "new")
+                else:
+                    e = fresh()
+                    n1 = ser(e)
+                    cp = e.forward(TO2)
+                    modify(cp, kind, fid, new_spec, way, cls_e)
+                    ncp = ser(cp)
+                    v = judge(seq, way, ncp, new_ref, old_ref)
+                    if v:
+                        results[(seq, way)] = report(seq, way, v, "new")
+                    v = judge(seq, way, ser(e), old_ref, new_ref) or judge(seq, way, n1, old_ref, new_ref)
+                    if v:
+                        results[(seq + "-original", way)] = report(seq, way, v, "original")
+            except ModifyRaised as mr:
+                ex = mr.orig
+                results[(seq, way)] = (seq, way, "setter-raises", "new") + setter_owner(kind, fid) + (
+                    "%s: assigning %s through the %s raises %s: %s (%s)" % (
+                        form, fid, "entity property" if way == "property" else "attribute object",
+                        type(ex).__name__, str(ex)[:120], exc_site(ex)), repr(ex)[:200])
+            except Exception as ex:
+                results[(seq, way)] = (seq, way, "raises", "new") + P.owner_of(kind, fid) + (
+                    "%s, sequence %s, field %s modified through the %s: %s: %s (%s)" % (
+                        form, seq, fid, way, type(ex).__name__, ex, exc_site(ex)), repr(ex)[:200])
+    for (seqk, way), (seq, _, word, wk, ocls, ofield, text, d0) in sorted(results.items()):
+        if way == "property" and (seqk, "attrs") not in results:
+            # the attribute-object route works: the entity's property is at fault, not the entity mechanism
+            vs.append(vio(ocls, ofield, "entity-accessor", text, case, {"diff": d0}, size, 4))
+        elif way == "attrs" or (seqk, "attrs") in results:
+            if way == "property":
+                continue            # same failure already reported for the attribute-object route
+            if word == "setter-raises":
+                vs.append(vio(ocls, ofield, "setter-raises", text, case, {"exception": d0}, size, 4))
+                continue
+            what = "original-changed" if wk == "original" else ("raises" if word == "raises" else "%s-payload" % word)
+            vs.append(vio("sequence", SEQ_GROUP[seq], what, text, case, {"diff": d0}, size, 4))
+    return vs, execs[0]
+
+
+# one signature per mechanism: A, B2 and the copy in D all re-serialise an entity that was serialised before the change
+SEQ_GROUP = {"A": "modify-after-serialise", "B2": "modify-after-serialise", "D": "modify-after-serialise",
+             "B": "modify-after-parse", "C": "replace-message-attributes"}
+SEQ_TEXT = {"A": "serialise, modify, serialise", "B": "parse incoming node, modify, serialise",
+            "B2": "parse, serialise, modify, serialise", "C": "serialise, replace message_attributes, serialise",
+            "D": "serialise, forward() a copy, modify the copy, serialise both"}
+
+
+# ---------------------------------------------------------------------------------------------
 # the space
 # ---------------------------------------------------------------------------------------------
 def std_ctx(mode):
@@ -662,6 +911,13 @@ def proto_specs(tier):
 # ---------------------------------------------------------------------------------------------
 def work(chunk):
     side, specs = chunk
+    if side == "seq":
+        vs, execs = [], 0
+        for it in specs:
+            v, n = run_seq_item(it)
+            vs += v
+            execs += n
+        return best_per_sig(vs), set(), execs, set(), len(vs), 0
     if side == "attrprod":
         side, specs = "attr", product_specs(*specs)
         light = True
@@ -760,6 +1016,9 @@ def run(ctx):
             jobs.append((side, ch))
     if not ctx.quick:
         jobs += list(product_jobs())
+    seq_all = [it for _, it in seq_items()]
+    for ch in chunks(seq_all, 60):
+        jobs.append(("seq", ch))
     jobs = shuffled(jobs, ctx.seed, "c10")
 
     allv = []
@@ -800,10 +1059,15 @@ def run(ctx):
         "distinct_outcomes": len(digests),
         "per_group": counts,
         "accessor_roundtrips": acc_execs,
+        "sequence_items": len(seq_all),
+        "sequence_items_whole_object": sum(1 for it in seq_all if it[3] == "*"),
+        "sequence_forms": len(seq_forms()),
         "bound": "per attribute class: all subsets of optional fields (+context-info bit) x 6 alphabet assignments "
                  "(3 uniform, 3 rotated); context info: all 2^6 field subsets x quoted bit x 6 assignments in each of %d host "
                  "classes; nesting: every chain of host classes up to depth 3 x %d leaf kinds; proto side: all subsets of ALL "
-                 "modelled fields x 6 assignments (quick: 4 for the 13-field video message)%s" % (
+                 "modelled fields x 6 assignments (quick: 4 for the 13-field video message); operation sequences A/B/B2/D on "
+                 "one entity for every entity form x 2 base contents x every modifiable field x every other alphabet "
+                 "value / unset, by property setter and by attribute object, and C between 3 contents%s" % (
                      len(CTX_HOSTS), len(KINDS),
                      "" if ctx.quick else "; thorough: independent per-field values (4^n, n<=8; 3x3^n above), extreme values"),
         "violating_cases": failing_cases,
@@ -817,6 +1081,8 @@ def run(ctx):
     ctx.assume("integers stay within the proto field's range (all modelled integer fields are unsigned; negative values "
                "only for float/double fields); ContactMessage.vcard is a bytes field in this tree's e2e.proto")
     ctx.assume("google.protobuf (pure python) serialises/parses correctly; the reference builder uses it directly")
+    ctx.assume("operation sequences: a downloadable-media context info is replaced but never removed (MediaAttributes."
+               "context_info asserts a ContextInfoAttributes instance); the document-level file_length alias is not modified")
 
 
 def replay(ctx, case):
@@ -826,6 +1092,9 @@ def replay(ctx, case):
         vs, _, _ = run_attr_spec(case["spec"])
     elif side == "proto":
         vs, _, _ = run_proto_spec(case["spec"])
+    elif side == "seq":
+        it = case["item"]
+        vs = run_seq_item((it[0], it[1], it[2], it[3], it[4]))[0]
     elif side in ("accessor", "setter"):
         vs = []
         for kind, cls_e in ACCESSOR_CLASSES:
